@@ -17,8 +17,17 @@ def mut_from(ev):
 
 
 def mut_drop_emit(ev):
+    # a data block that reached the file in a scenario that closed cleanly: without its emit event the
+    # replies claim more than was delivered (dropping a *failed* emit would only hide the fault)
+    clean = set()
+    bad = set()
+    for e in ev:
+        if e.get("ev") == "emit" and not e["ok"]:
+            bad.add(e["sc"])
+        if e.get("ev") == "ret" and e.get("op") == "C" and e.get("err") == "nil":
+            clean.add(e["sc"])
     for i, e in enumerate(ev):
-        if e.get("ev") == "emit" and e["plen"] > 0:
+        if e.get("ev") == "emit" and e["plen"] > 0 and e["ok"] and e["sc"] in clean and e["sc"] not in bad:
             del ev[i]
             return ev
 
